@@ -376,3 +376,220 @@ VARIANTS += [
  dict(name='iterator-loop-chain-index-off', expect='flagged(aggregator/same-index)',
       edits=[(V,) + _IMPORT, (V, _LOOP_HEAD, 'for i, certResult := range stdslices.Backward(certResults) {\n\t\tcert := certChain[len(certChain)-1-i]')]),
 ]
+
+# ---- second pass: classes of rewrites ---------------------------------------------------------------------------------
+# class K: the result object is built by a constructor (function / method / closure / constructor delegating to a more
+# general one / any parameter order / field assigned after the literal), combined with the ways the tail can be written
+# (fields stored into the constructed object, error local + one constructor call at the single exit, one return per arm).
+# An exit built by the constructor is a failing exit iff what the constructor puts into Error (read off the constructor:
+# a parameter, or a non-nil value of its own) is provably non-nil with the arguments of the call site.
+_LIT_BOTH_NIL = """		return &notation.ValidationResult{
+			Type:   trustpolicy.TypeRevocation,
+			Action: outcome.VerificationLevel.Enforcement[trustpolicy.TypeRevocation],
+			Error:  fmt.Errorf("unable to check revocation status, code signing revocation validator cannot be nil"),
+		}
+"""
+_LIT_VAL_ERR = """		return &notation.ValidationResult{
+			Type:   trustpolicy.TypeRevocation,
+			Action: outcome.VerificationLevel.Enforcement[trustpolicy.TypeRevocation],
+			Error:  fmt.Errorf("unable to check revocation status, err: %s", err.Error()),
+		}
+"""
+_VAL_ERR_GUARD = '\tif err != nil {\n\t\tlogger.Debug("Error while checking revocation status, err: %s", err.Error())'
+_ENTRY_HEAD = '\tlogger := log.GetLogger(ctx)\n\n\tif v.revocationCodeSigningValidator == nil && v.revocationClient == nil {\n'
+_E_BOTH_NIL = 'fmt.Errorf("unable to check revocation status, code signing revocation validator cannot be nil")'
+_E_VAL_ERR = 'fmt.Errorf("unable to check revocation status, err: %s", err.Error())'
+_E_REVOKED = 'fmt.Errorf("signing certificate with subject %q is revoked", problematicCertSubject)'
+_E_UNKNOWN = 'fmt.Errorf("signing certificate with subject %q revocation status is unknown", problematicCertSubject)'
+_LIT = "&notation.ValidationResult{\n\t\tType:   %s,\n\t\tAction: %s.VerificationLevel.Enforcement[%s],\n%s\t}"
+_REV = 'trustpolicy.TypeRevocation'
+
+def _ctor_defs(kind, error_field='\t\tError:  problem,\n', inner_arg='problem'):
+    """returns (top-level declarations, statement inserted at the top of verifyRevocation, call(expr))"""
+    if kind == 'func':
+        return ("func entryOf(o *notation.VerificationOutcome, problem error) *notation.ValidationResult {\n\treturn " + _LIT % (_REV, 'o', _REV, error_field) + "\n}\n\n",
+                '', lambda e: 'entryOf(outcome, %s)' % e)
+    if kind == 'swapped':
+        return ("func entryOf(problem error, o *notation.VerificationOutcome) *notation.ValidationResult {\n\treturn " + _LIT % (_REV, 'o', _REV, error_field) + "\n}\n\n",
+                '', lambda e: 'entryOf(%s, outcome)' % e)
+    if kind == 'method':
+        return ("func (recv *verifier) entryOf(o *notation.VerificationOutcome, problem error) *notation.ValidationResult {\n\treturn " + _LIT % (_REV, 'o', _REV, error_field) + "\n}\n\n",
+                '', lambda e: 'v.entryOf(outcome, %s)' % e)
+    if kind == 'wrapper':
+        return ("func entryOfKind(o *notation.VerificationOutcome, kind trustpolicy.ValidationType, problem error) *notation.ValidationResult {\n\treturn " + _LIT % ('kind', 'o', 'kind', error_field) + "\n}\n\n" +
+                "func entryOf(o *notation.VerificationOutcome, cause error) *notation.ValidationResult {\n\treturn entryOfKind(o, " + _REV + ", %s)\n}\n\n" % inner_arg.replace('problem', 'cause'),
+                '', lambda e: 'entryOf(outcome, %s)' % e)
+    if kind == 'post-store':
+        return ("func entryOf(o *notation.VerificationOutcome, problem error) *notation.ValidationResult {\n\tentry := " + _LIT % (_REV, 'o', _REV, '') + "\n" + error_field + "\treturn entry\n}\n\n",
+                '', lambda e: 'entryOf(outcome, %s)' % e)
+    if kind == 'closure':
+        return ('', "\tentryOf := func(problem error) *notation.ValidationResult {\n\t\treturn " + _LIT % (_REV, 'outcome', _REV, error_field) + "\n\t}\n",
+                lambda e: 'entryOf(%s)' % e)
+    if kind == 'failing-ctor':
+        # two constructors: one that formats its own error (always failing), one for the passing entry
+        return ("func failedEntry(o *notation.VerificationOutcome, format string, args ...any) *notation.ValidationResult {\n\treturn " + _LIT % (_REV, 'o', _REV, '\t\tError:  fmt.Errorf(format, args...),\n') + "\n}\n\n" +
+                "func passedEntry(o *notation.VerificationOutcome) *notation.ValidationResult {\n\treturn " + _LIT % (_REV, 'o', _REV, '') + "\n}\n\n",
+                '', None)
+    raise ValueError(kind)
+
+def _ctor_shape(kind='func', tail='stores', both_nil=_E_BOTH_NIL, val_err=_E_VAL_ERR, val_guard=None, unknown=_E_UNKNOWN,
+                ok_case='case revocationresult.ResultOK:', after_ctor='', **kw):
+    decls, local, call = _ctor_defs(kind, **kw)
+    if kind == 'failing-ctor':
+        def call(e):
+            if e == 'nil':
+                return 'passedEntry(outcome)'
+            assert e.startswith('fmt.Errorf(') and e.endswith(')')
+            return 'failedEntry(outcome, ' + e[len('fmt.Errorf('):]
+    agg = "\tfinalResult, problematicCertSubject := revocationFinalResult(certResults, outcome.EnvelopeContent.SignerInfo.CertificateChain, logger)\n\tswitch finalResult {\n\t" + ok_case + "\n\t\tlogger.Debug(\"No verification impacting errors encountered while checking revocation, status is OK\")\n"
+    if tail == 'stores':
+        t = ("\tresult := " + call('nil') + "\n" + agg + "\tcase revocationresult.ResultRevoked:\n\t\tresult.Error = " + _E_REVOKED +
+             "\n\tdefault:\n\t\tresult.Error = " + unknown + "\n\t}\n\n\treturn result\n}\n")
+    elif tail == 'single-exit':
+        t = ("\tvar failure error\n" + agg + "\tcase revocationresult.ResultRevoked:\n\t\tfailure = " + _E_REVOKED +
+             "\n\tdefault:\n\t\tfailure = " + unknown + "\n\t}\n\n\treturn " + call('failure') + "\n}\n")
+    elif tail == 'returns':
+        t = (agg + "\t\treturn " + call('nil') + "\n\tcase revocationresult.ResultRevoked:\n\t\treturn " + call(_E_REVOKED) +
+             "\n\t}\n\treturn " + call(unknown) + "\n}\n")
+    else:
+        raise ValueError(tail)
+    edits = [(V, _LIT_BOTH_NIL, "\t\treturn " + call(both_nil) + after_ctor + "\n"),
+             (V, _LIT_VAL_ERR, "\t\treturn " + call(val_err) + "\n"),
+             (V, _RESULT_TAIL, t)]
+    if decls:
+        edits.append((V, _ANCHOR, decls + _ANCHOR))
+    if local:
+        edits.append((V, _ENTRY_HEAD, '\tlogger := log.GetLogger(ctx)\n' + local + '\n\tif v.revocationCodeSigningValidator == nil && v.revocationClient == nil {\n'))
+    if val_guard:
+        edits.append((V, _VAL_ERR_GUARD, val_guard))
+    return edits
+
+_WHY_K = 'the constructor is read for what it puts into Error (a parameter / a non-nil value); the exit fails iff that is non-nil with the arguments of the call'
+VARIANTS += [
+ dict(name='benign-ctor-func-fields-stored', expect='silent', edits=_ctor_shape(), why=_WHY_K),
+ dict(name='benign-ctor-swapped-params-single-exit', expect='silent', edits=_ctor_shape(kind='swapped', tail='single-exit'), why=_WHY_K),
+ dict(name='benign-ctor-method-return-per-arm', expect='silent', edits=_ctor_shape(kind='method', tail='returns'), why=_WHY_K),
+ dict(name='benign-ctor-delegating-to-general-ctor', expect='silent', edits=_ctor_shape(kind='wrapper'), why=_WHY_K),
+ dict(name='benign-ctor-delegating-single-exit', expect='silent', edits=_ctor_shape(kind='wrapper', tail='single-exit'), why=_WHY_K),
+ dict(name='benign-ctor-error-assigned-after-literal', expect='silent', edits=_ctor_shape(kind='post-store', error_field='\tentry.Error = problem\n', tail='returns'), why=_WHY_K),
+ dict(name='benign-ctor-closure', expect='silent', edits=_ctor_shape(kind='closure'), why=_WHY_K),
+ dict(name='benign-ctor-closure-single-exit', expect='silent', edits=_ctor_shape(kind='closure', tail='single-exit'), why=_WHY_K),
+ dict(name='benign-ctor-formats-its-own-error', expect='silent', edits=_ctor_shape(kind='failing-ctor', tail='returns'), why=_WHY_K),
+ dict(name='benign-ctor-validator-error-passed-unwrapped', expect='silent', edits=_ctor_shape(val_err='err'),
+      why='the argument is non-nil by the dominating err != nil branch'),
+ # the class with the property broken
+ dict(name='ctor-drops-the-error', expect='flagged(result/)', edits=_ctor_shape(error_field='')),
+ dict(name='ctor-closure-drops-the-error', expect='flagged(result/)', edits=_ctor_shape(kind='closure', error_field='')),
+ dict(name='ctor-sets-error-only-when-enforced', expect='flagged(result/)',
+      edits=_ctor_shape(kind='post-store', error_field='\tif entry.Action == trustpolicy.ActionEnforce {\n\t\tentry.Error = problem\n\t}\n')),
+ dict(name='ctor-wrapper-passes-nil-on', expect='flagged(result/)', edits=_ctor_shape(kind='wrapper', inner_arg='nil')),
+ dict(name='ctor-both-nil-gets-nil-error', expect='flagged(result/both-validators-nil)', edits=_ctor_shape(both_nil='nil')),
+ dict(name='ctor-swapped-both-nil-gets-nil-error', expect='flagged(result/both-validators-nil)', edits=_ctor_shape(kind='swapped', tail='single-exit', both_nil='nil')),
+ dict(name='ctor-validator-error-maybe-nil', expect='flagged(result/validator-error)',
+      edits=_ctor_shape(val_err='err', val_guard='\tif err != nil || len(certResults) == 0 {\n\t\tlogger.Debug("Error while checking revocation status, err: %v", err)')),
+ dict(name='ctor-validator-error-ignored', expect='flagged(result/validator-error)',
+      edits=_ctor_shape(val_guard='\tif err != nil && certResults == nil {\n\t\tlogger.Debug("Error while checking revocation status, err: %s", err.Error())')),
+ dict(name='ctor-unknown-aggregate-returns-nil-error', expect='flagged(result/aggregate-ok)', edits=_ctor_shape(kind='method', tail='returns', unknown='nil')),
+ dict(name='ctor-single-exit-unknown-aggregate-passes', expect='flagged(result/aggregate-ok)',
+      edits=_ctor_shape(kind='wrapper', tail='single-exit', ok_case='case revocationresult.ResultOK, revocationresult.ResultUnknown:')),
+ dict(name='ctor-failing-ctor-unknown-arm-passes', expect='flagged(result/aggregate-ok)',
+      edits=[e if e[1] != _RESULT_TAIL else (e[0], e[1], e[2].replace('\t}\n\treturn failedEntry(outcome, "signing certificate with subject %q revocation status is unknown", problematicCertSubject)', '\t}\n\treturn passedEntry(outcome)'))
+             for e in _ctor_shape(kind='failing-ctor', tail='returns')]),
+]
+
+# class B: helpers extracted at other boundaries / with narrowed or widened parameters. Facts are looked for in every
+# function between the function that returns the revocation ValidationResult and the validator / aggregator calls and
+# are carried to its frame by substituting parameters with the arguments of the (closed) call sites.
+_TIME_AND_DISPATCH = _TIME_BLOCK + _DISPATCH
+_AGG_CALL = "\tfinalResult, problematicCertSubject := revocationFinalResult(certResults, outcome.EnvelopeContent.SignerInfo.CertificateChain, logger)\n"
+_SWITCH = """	switch finalResult {
+	case revocationresult.ResultOK:
+		logger.Debug("No verification impacting errors encountered while checking revocation, status is OK")
+	case revocationresult.ResultRevoked:
+		result.Error = fmt.Errorf("signing certificate with subject %q is revoked", problematicCertSubject)
+	default:
+		// revocationresult.ResultUnknown
+		result.Error = fmt.Errorf("signing certificate with subject %q revocation status is unknown", problematicCertSubject)
+	}
+
+	return result
+}
+"""
+_RESULT_LIT = """	result := &notation.ValidationResult{
+		Type:   trustpolicy.TypeRevocation,
+		Action: outcome.VerificationLevel.Enforcement[trustpolicy.TypeRevocation],
+	}
+"""
+assert _RESULT_TAIL == _RESULT_LIT + _AGG_CALL + _SWITCH
+
+def _narrow(param='signerinfo', chain=None, guard=True, client_time='when'):
+    """time computation and dispatch in one helper that is handed less (the SignerInfo) or more (the outcome) than the chain"""
+    ptype, arg, path = {
+        'signerinfo': ('*signature.SignerInfo', '&outcome.EnvelopeContent.SignerInfo', 'src'),
+        'envelope': ('*signature.EnvelopeContent', 'outcome.EnvelopeContent', 'src.SignerInfo'),
+        'outcome': ('*notation.VerificationOutcome', 'outcome', 'src.EnvelopeContent.SignerInfo'),
+    }[param]
+    chain = chain or path + '.CertificateChain'
+    time_body = ("\tvar when time.Time\n\tif %s.SignedAttributes.SigningScheme == signature.SigningSchemeX509SigningAuthority {\n\t\twhen, _ = %s.AuthenticSigningTime()\n\t}\n" % (path, path)
+                 if guard else "\twhen, _ := %s.AuthenticSigningTime()\n" % path)
+    helper = ("func (recv *verifier) consultFor(ctxArg context.Context, src %s) ([]*revocationresult.CertRevocationResult, error) {\n" % ptype + time_body +
+              "\tif recv.revocationCodeSigningValidator == nil {\n\t\treturn recv.revocationClient.Validate(%s, %s)\n\t}\n" % (chain, client_time) +
+              "\treturn recv.revocationCodeSigningValidator.ValidateContext(ctxArg, revocation.ValidateContextOptions{\n\t\tCertChain:            %s,\n\t\tAuthenticSigningTime: when,\n\t})\n}\n\n" % chain)
+    return [(V, _TIME_AND_DISPATCH, "\tcertResults, err := v.consultFor(ctx, %s)\n" % arg), (V, _ANCHOR, helper + _ANCHOR)]
+
+def _verdict_helper(ok_case='case revocationresult.ResultOK:', agg_arg='finalResult'):
+    """the switch that turns the aggregate into the result object lives in a helper"""
+    helper = ("func entryForAggregate(o *notation.VerificationOutcome, aggregate revocationresult.Result, who string, out log.Logger) *notation.ValidationResult {\n" +
+              _RESULT_LIT.replace('outcome.', 'o.') +
+              _SWITCH.replace('switch finalResult', 'switch aggregate').replace('case revocationresult.ResultOK:', ok_case).replace('problematicCertSubject', 'who').replace('logger.', 'out.') + "\n")
+    return [(V, _RESULT_TAIL, _AGG_CALL + "\treturn entryForAggregate(outcome, %s, problematicCertSubject, logger)\n}\n" % agg_arg), (V, _ANCHOR, helper + _ANCHOR)]
+
+def _aggregate_and_verdict_helper(ok_case='case revocationresult.ResultOK:', results_arg='certResults'):
+    """aggregator call and switch in a helper that is handed the validator's results"""
+    helper = ("func entryForResults(o *notation.VerificationOutcome, perCert []*revocationresult.CertRevocationResult, out log.Logger) *notation.ValidationResult {\n" +
+              _RESULT_LIT.replace('outcome.', 'o.') +
+              _AGG_CALL.replace('certResults', 'perCert').replace('outcome.', 'o.').replace('logger', 'out') +
+              _SWITCH.replace('case revocationresult.ResultOK:', ok_case).replace('logger.', 'out.') + "\n")
+    return [(V, _RESULT_TAIL, "\treturn entryForResults(outcome, %s, logger)\n}\n" % results_arg), (V, _ANCHOR, helper + _ANCHOR)]
+
+def _consult_and_aggregate_helper(err_guard='if err != nil {', on_err='revocationresult.ResultUnknown, "", err', caller_guard=None):
+    """time, dispatch, error test and aggregation in a helper that returns (aggregate, subject, error)"""
+    helper = ("func (recv *verifier) aggregateFor(ctx context.Context, outcome *notation.VerificationOutcome, logger log.Logger) (revocationresult.Result, string, error) {\n" +
+              _TIME_AND_DISPATCH.replace('v.', 'recv.') + "\t" + err_guard + "\n\t\treturn " + on_err + "\n\t}\n" +
+              "\tfinalResult, problematicCertSubject := revocationFinalResult(certResults, outcome.EnvelopeContent.SignerInfo.CertificateChain, logger)\n\treturn finalResult, problematicCertSubject, nil\n}\n\n")
+    caller = "\tfinalResult, problematicCertSubject, err := v.aggregateFor(ctx, outcome, logger)\n"
+    edits = [(V, _TIME_AND_DISPATCH, caller), (V, _RESULT_TAIL, _RESULT_LIT + _SWITCH), (V, _ANCHOR, helper + _ANCHOR)]
+    if caller_guard:
+        edits.append((V, _VAL_ERR_GUARD, caller_guard))
+    return edits
+
+def _inner_after_nil_check(keep_check=True, inner_result=True):
+    """the both-nil check stays in the entry, everything else moves to an inner method that returns the result object"""
+    head = "func (recv *verifier) revocationEntryChecked(ctx context.Context, outcome *notation.VerificationOutcome, logger log.Logger) *notation.ValidationResult {\n"
+    return [(V, _LIT_BOTH_NIL + "\t}\n\n", (_LIT_BOTH_NIL if keep_check else _LIT_BOTH_NIL.replace('\t\t\tError:  ' + _E_BOTH_NIL + ',\n', '')) + "\t}\n\treturn v.revocationEntryChecked(ctx, outcome, logger)\n}\n\n" + head),
+            (V, '\tif v.revocationCodeSigningValidator != nil {\n\t\tcertResults, err = v.revocationCodeSigningValidator.ValidateContext(', '\tif recv.revocationCodeSigningValidator != nil {\n\t\tcertResults, err = recv.revocationCodeSigningValidator.ValidateContext('),
+            (V, '\t\tcertResults, err = v.revocationClient.Validate(outcome.', '\t\tcertResults, err = recv.revocationClient.Validate(outcome.')]
+
+VARIANTS += [
+ dict(name='benign-helper-narrowed-to-signerinfo', expect='silent', edits=_narrow('signerinfo')),
+ dict(name='benign-helper-narrowed-to-envelope-content', expect='silent', edits=_narrow('envelope')),
+ dict(name='benign-helper-widened-to-outcome', expect='silent', edits=_narrow('outcome')),
+ dict(name='narrowed-helper-slices-chain', expect='flagged(args/chain)', edits=_narrow('signerinfo', chain='src.CertificateChain[:1]')),
+ dict(name='narrowed-helper-time-unguarded', expect='flagged(args/signing-time-only-for-signing-authority)', edits=_narrow('signerinfo', guard=False)),
+ dict(name='widened-helper-client-gets-zero-time', expect='flagged(args/same-signing-time)', edits=_narrow('outcome', client_time='time.Time{}')),
+ dict(name='benign-verdict-helper', expect='silent', edits=_verdict_helper()),
+ dict(name='verdict-helper-unknown-passes', expect='flagged(result/aggregate-ok)', edits=_verdict_helper(ok_case='case revocationresult.ResultOK, revocationresult.ResultUnknown:')),
+ dict(name='verdict-helper-gets-constant-ok', expect='flagged(result/aggregate-ok)',
+      edits=[(e[0], e[1], e[2].replace(_AGG_CALL, _AGG_CALL + '\t_ = finalResult\n')) for e in _verdict_helper(agg_arg='revocationresult.ResultOK')]),
+ dict(name='benign-aggregate-and-verdict-helper', expect='silent', edits=_aggregate_and_verdict_helper()),
+ dict(name='aggregate-and-verdict-helper-nonrevokable-passes', expect='flagged(result/aggregate-ok)',
+      edits=_aggregate_and_verdict_helper(ok_case='case revocationresult.ResultOK, revocationresult.ResultNonRevokable:')),
+ dict(name='aggregate-and-verdict-helper-gets-truncated-results', expect='flagged(aggregator/results-argument)', edits=_aggregate_and_verdict_helper(results_arg='certResults[:1]')),
+ dict(name='benign-consult-and-aggregate-helper', expect='silent', edits=_consult_and_aggregate_helper()),
+ dict(name='consult-and-aggregate-helper-swallows-error', expect='flagged(result/validator-error)',
+      edits=_consult_and_aggregate_helper(on_err='revocationresult.ResultOK, "", nil')),
+ dict(name='consult-and-aggregate-helper-error-ignored-by-caller', expect='flagged(result/validator-error)',
+      edits=_consult_and_aggregate_helper(caller_guard='\tif err != nil && finalResult != revocationresult.ResultOK {\n\t\tlogger.Debug("Error while checking revocation status, err: %s", err.Error())')),
+ dict(name='benign-inner-method-after-nil-check', expect='silent', edits=_inner_after_nil_check()),
+ dict(name='inner-method-entry-passes-with-both-nil', expect='flagged(result/both-validators-nil)', edits=_inner_after_nil_check(keep_check=False)),
+]
